@@ -510,37 +510,30 @@ Ltac binv_tac :=
         | (intros _; repeat split; auto; lia)
         | auto ].
 
-Lemma poll_running : forall p st st1 r,
-  Binv p st -> t_done (g_task st) = false -> poll_next (pre_poll st) = (st1, r) ->
+Lemma poll_running_gen : forall p st st1 r,
+  Binv p st -> t_done (g_task st) = false -> poll_next st = (st1, r) ->
   Binv p st1 /\
   (t_pc (g_task st) <= t_pc (g_task st1))%nat /\
-  m_log (g_m st1) = map N.of_nat (seq (t_pc (g_task st)) (t_pc (g_task st1) - t_pc (g_task st))) /\
+  m_log (g_m st1) = m_log (g_m st) ++ map N.of_nat (seq (t_pc (g_task st)) (t_pc (g_task st1) - t_pc (g_task st))) /\
   m_completed (g_m st1) = m_completed (g_m st) /\
-  (PhiS st1 + b2n (m_woken (g_m st1)) <= PhiS st)%nat /\
+  (PhiS st1 + b2n (m_woken (g_m st1)) <= PhiS st + b2n (m_woken (g_m st)))%nat /\
   poll_out p st st1 r.
 Proof.
   intros p [[pc rest sb sent sw dn] m ret res sterm] st1 r HB Hd Hp.
   simpl in Hd; subst dn.
   destruct HB as [Bc Bpc Brest Bret Bres Bsterm _ Bwait]; cbn [g_task g_m g_ret g_res g_sterm t_pc t_rest t_done] in *.
   subst res.
-  unfold pre_poll, with_m, poll_next in Hp; cbn [g_task g_m g_ret g_res g_sterm t_pc t_rest t_sub t_sent t_selfwoke t_done] in Hp.
-  set (m0 := set_log [] (set_woken false m)) in *.
-  assert (Hc0 : clean m0) by (destruct m; exact Bc).
-  assert (Ho0 : m_open m0 = m_open m) by (destruct m; reflexivity).
-  assert (Hcomp0 : m_completed m0 = m_completed m) by (destruct m; reflexivity).
-  assert (Hlog0 : m_log m0 = []) by (destruct m; reflexivity).
-  assert (Hwk0 : m_woken m0 = false) by (destruct m; reflexivity).
-  assert (Hw0 : wait_inv rest m0).
-  { intros k Hk. apply (Bwait k). destruct m; exact Hk. }
-  pose proof (run_task_TaskRun rest pc sb sent sw m0 Hc0) as TR.
-  destruct (run_task pc rest sb sent sw m0) as [t1 m1]. cbn [fst snd] in TR.
+  unfold poll_next in Hp; cbn [g_task g_m g_ret g_res g_sterm t_pc t_rest t_sub t_sent t_selfwoke t_done] in Hp.
+  assert (Hc0 : clean m) by exact Bc.
+  assert (Hw0 : wait_inv rest m) by exact Bwait.
+  pose proof (run_task_TaskRun rest pc sb sent sw m Hc0) as TR.
+  destruct (run_task pc rest sb sent sw m) as [t1 m1]. cbn [fst snd] in TR.
   destruct (TR_frame _ _ _ _ _ _ _ _ TR Hc0) as (F1 & F2 & F3 & F4 & F5 & F6 & F7 & F8).
   pose proof (TR_emit _ _ _ _ _ _ _ _ TR Hc0) as EM.
   pose proof (TR_wake _ _ _ _ _ _ _ _ TR Hc0) as WK.
   pose proof (TR_sent_shape _ _ _ _ _ _ _ _ TR Hc0) as SH.
   destruct (TR_wait_inv _ _ _ _ _ _ _ _ TR Hc0 Hw0) as (WI & WD).
   destruct (TR_phi _ _ _ _ _ _ _ _ TR Hc0) as (P1 & P2).
-  rewrite Hlog0 in F5; simpl in F5. rewrite Hcomp0 in F1, P1, P2. rewrite Ho0 in EM, F7, P1, P2. rewrite Hwk0 in P1.
   cbn [negb andb] in Hp.
   assert (Brest1 : t_rest t1 = skipn (t_pc t1) (p_ops p)).
   { rewrite F4, Brest, skipn_skipn'. f_equal. lia. }
@@ -579,7 +572,7 @@ Proof.
       * (* task returned: Complete *)
         destruct (F6 eq_refl) as (E1 & _).
         split; [solve [binv_tac]|]. repeat split; auto.
-        -- simpl in P1. rewrite Ho1 in *. simpl in *. lia.
+        -- rewrite Ho1 in P1. simpl in P1. simpl. Show. lia.
         -- rewrite <- EM. rewrite ?Ho1. unfold inflight. rewrite Hq1. reflexivity.
       * split; [solve [binv_tac]|]. repeat split; auto.
         -- simpl in P1. lia.
@@ -594,6 +587,25 @@ Proof.
     cbn [g_task g_m g_ret g_res g_sterm t_pc t_rest t_sub t_sent t_selfwoke t_done m_open m_completed m_woken m_log m_wait_reg].
     split; [solve [binv_tac]|]. repeat split; auto.
     all: first [ rewrite <- EM; unfold inflight; rewrite Q1, Q4; reflexivity | simpl; rewrite Q4 in P2; simpl in P2; lia ].
+Qed.
+
+Lemma poll_running : forall p st st1 r,
+  Binv p st -> t_done (g_task st) = false -> poll_next (pre_poll st) = (st1, r) ->
+  Binv p st1 /\
+  (t_pc (g_task st) <= t_pc (g_task st1))%nat /\
+  m_log (g_m st1) = map N.of_nat (seq (t_pc (g_task st)) (t_pc (g_task st1) - t_pc (g_task st))) /\
+  m_completed (g_m st1) = m_completed (g_m st) /\
+  (PhiS st1 + b2n (m_woken (g_m st1)) <= PhiS st)%nat /\
+  poll_out p st st1 r.
+Proof.
+  intros p st st1 r HB Hd Hp.
+  destruct (poll_running_gen p (pre_poll st) st1 r (Binv_pre_poll _ _ HB) Hd Hp) as (A & B & C & D & E & F).
+  split; [exact A|]. split; [exact B|]. split; [exact C|].
+  split; [rewrite D; destruct st as [t [] ? ? ?]; reflexivity|].
+  split.
+  - replace (PhiS st) with (PhiS (pre_poll st) + b2n (m_woken (g_m (pre_poll st))))%nat; [exact E|].
+    destruct st as [t [] ? ? ?]. unfold PhiS, Phi; cbn. lia.
+  - destruct r; exact F.
 Qed.
 
 Lemma PhiS_done : forall p st, Binv p st -> t_done (g_task st) = true -> PhiS st = 0%nat.
@@ -1137,4 +1149,145 @@ Proof.
   intros p s. unfold c13_monitor, mon_init, run.
   pose proof (mon_accepts_from s p (init p) (Binv_init p)) as H.
   change (pendS (init p)) with (pendo 0 true (p_ops p) NotSent 0) in H. rewrite pendo_fresh in H. exact H.
+Qed.
+
+(* ---- soundness of the monitor: what acceptance of ANY observation list means ---- *)
+Lemma mon_step_inv : forall p ms o ms',
+  mon_step p ms o = Some ms' ->
+  let c := ms_c ms + N.of_nat (length (o_done o)) in
+  consecutive (ms_c ms) (o_done o) = true /\ ms_c ms' = c /\
+  match o_res o with
+  | RPendingP => ms_fin ms = false /\ ms_fin ms' = false /\ ms_rem ms' = ms_rem ms /\
+                 (o_wd o = true \/ exists k, o_blocked o = Some k /\ nth_error (p_ops p) (N.to_nat c) = Some (Wait k))
+  | RYielded x => ms_fin ms = false /\ ms_fin ms' = false /\ ms_rem ms = (x, c) :: ms_rem ms' /\ o_wd o = true
+  | RComplete r => ms_fin ms = false /\ ms_fin ms' = true /\ ms_rem ms = [] /\ ms_rem ms' = [] /\ r = p_ret p
+  | RStreamEnd => ms_fin ms = true /\ ms_fin ms' = true /\ ms_rem ms' = ms_rem ms
+  end.
+Proof.
+  intros p ms o ms' H c. unfold mon_step in H. fold c in H.
+  destruct (consecutive (ms_c ms) (o_done o)); [|discriminate]. cbn [negb] in H.
+  destruct (c <=? N.of_nat (length (p_ops p))); [|discriminate]. cbn [negb] in H.
+  split; [reflexivity|].
+  destruct (o_res o) as [|x|r|].
+  - destruct (ms_fin ms); [discriminate|]. destruct (o_term o); [discriminate|]. cbn [orb] in H.
+    destruct (o_wd o) eqn:W; cbn [orb] in H.
+    + injection H as <-. cbn. repeat split; auto.
+    + destruct (o_blocked o) as [k|] eqn:B; [|rewrite andb_false_r in H; discriminate].
+      rewrite andb_true_r in H.
+      destruct (nth_error (p_ops p) (N.to_nat c)) as [[]|] eqn:E; cbn [is_wait] in H; try discriminate.
+      destruct (k0 =? k) eqn:Ek; [|discriminate]. apply N.eqb_eq in Ek; subst k0.
+      injection H as <-. cbn. repeat split; auto. right. exists k. auto.
+  - destruct (ms_rem ms) as [|[y j] rem'] eqn:R; [discriminate|].
+    destruct (ms_fin ms); [discriminate|]. destruct (o_term o); [discriminate|]. cbn [negb andb] in H.
+    destruct (x =? y) eqn:E1; [|discriminate]. destruct (j =? c) eqn:E2; [|discriminate].
+    destruct (o_wd o); [|discriminate]. cbn in H. injection H as <-.
+    apply N.eqb_eq in E1, E2. subst. cbn. repeat split; auto.
+  - destruct (ms_rem ms) as [|] eqn:R; [|discriminate].
+    destruct (ms_fin ms); [discriminate|]. destruct (o_term o); [|discriminate]. cbn [negb andb] in H.
+    destruct (r =? p_ret p) eqn:E1; [|discriminate].
+    destruct (c =? N.of_nat (length (p_ops p))); [|discriminate]. cbn in H. injection H as <-.
+    apply N.eqb_eq in E1. cbn. repeat split; auto.
+  - destruct (ms_fin ms); [|discriminate]. destruct (o_term o); [|discriminate]. cbn in H.
+    injection H as <-. cbn. repeat split; auto.
+Qed.
+
+Lemma mon_run_shape : forall obs p ms,
+  mon_run p ms obs = true ->
+  (ms_fin ms = false -> stream_shape (map fst (ms_rem ms)) (p_ret p) (results obs)) /\
+  (ms_fin ms = true -> exists n, results obs = repeat RStreamEnd n).
+Proof.
+  induction obs as [|o obs IH]; intros p ms H.
+  - split; intros _.
+    + exists [], []. repeat split; auto. left. split; auto. exists (map fst (ms_rem ms)). reflexivity.
+    + exists 0%nat. reflexivity.
+  - cbn [mon_run] in H. destruct (mon_step p ms o) as [ms'|] eqn:St; [|discriminate].
+    destruct (IH p ms' H) as (IH1 & IH2). destruct (mon_step_inv _ _ _ _ St) as (_ & _ & Inv).
+    unfold results in *. cbn [map].
+    destruct (o_res o) as [|x|r|].
+    + destruct Inv as (F & F' & R & _). split; [intros _|congruence].
+      destruct (IH1 F') as (pre & post & E & Fp & Hs). rewrite R in Hs.
+      exists (RPendingP :: pre), post. rewrite E. repeat split; auto. constructor; simpl; auto.
+    + destruct Inv as (F & F' & R & _). split; [intros _|congruence].
+      destruct (IH1 F') as (pre & post & E & Fp & Hs). rewrite R. cbn [map fst].
+      exists (RYielded x :: pre), post. rewrite E. repeat split; auto. { constructor; simpl; auto. }
+      change (yvals (RYielded x :: pre)) with (x :: yvals pre).
+      destruct Hs as [(-> & later & Hl)|(n & -> & Hy)].
+      * left. split; auto. exists later. rewrite Hl. reflexivity.
+      * right. exists n. split; auto. rewrite Hy. reflexivity.
+    + destruct Inv as (F & F' & R & R' & ->). split; [intros _|congruence].
+      destruct (IH2 F') as (n & Hn). rewrite Hn, R.
+      exists [], (RComplete (p_ret p) :: repeat RStreamEnd n). repeat split; auto. right. exists n. auto.
+    + destruct Inv as (F & F' & R). split; [congruence|intros _].
+      destruct (IH2 F') as (n & Hn). exists (S n). rewrite Hn. reflexivity.
+Qed.
+
+Theorem monitor_sound_order : forall p obs,
+  c13_monitor p obs = true -> stream_shape (emits (p_ops p)) (p_ret p) (results obs).
+Proof.
+  intros p obs H. destruct (mon_run_shape obs p (mon_init p) H) as (A & _).
+  specialize (A eq_refl). cbn [mon_init ms_rem] in A. rewrite owners_emits in A. exact A.
+Qed.
+
+Lemma mon_run_wake : forall obs p ms,
+  mon_run p ms obs = true ->
+  Forall (fun o => (forall x, o_res o = RYielded x -> o_wd o = true) /\
+                   (o_res o = RPendingP -> o_wd o = true \/ exists k, o_blocked o = Some k)) obs.
+Proof.
+  induction obs as [|o obs IH]; intros p ms H; [constructor|].
+  cbn [mon_run] in H. destruct (mon_step p ms o) as [ms'|] eqn:St; [|discriminate].
+  constructor; [|apply (IH p ms' H)].
+  destruct (mon_step_inv _ _ _ _ St) as (_ & _ & Inv).
+  destruct (o_res o) as [|x|r|]; split; intros; try discriminate.
+  - destruct Inv as (_ & _ & _ & [W|(k & B & _)]); [left; exact W|right; exists k; exact B].
+  - apply Inv.
+Qed.
+
+Theorem monitor_sound_wakeup : forall p obs,
+  c13_monitor p obs = true ->
+  Forall (fun o => (forall x, o_res o = RYielded x -> o_wd o = true) /\
+                   (o_res o = RPendingP -> o_wd o = true \/ exists k, o_blocked o = Some k)) obs.
+Proof. intros p obs H. apply (mon_run_wake obs p (mon_init p) H). Qed.
+
+Lemma consecutive_lt : forall l c d, consecutive c l = true -> In d l -> d < c + N.of_nat (length l).
+Proof.
+  induction l as [|x l IH]; intros c d H Hin; [destruct Hin|].
+  cbn [consecutive] in H. apply andb_prop in H. destruct H as (E & H). apply N.eqb_eq in E. subst x.
+  cbn [length]. destruct Hin as [<-|Hin]; [lia|]. specialize (IH _ _ H Hin). lia.
+Qed.
+
+Lemma mon_run_back_pressure : forall obs p ms i o x,
+  mon_run p ms obs = true -> nth_error obs i = Some o -> o_res o = RYielded x ->
+  exists j, In (x, j) (ms_rem ms) /\ ms_c ms <= j /\
+    forall i' o', (i' <= i)%nat -> nth_error obs i' = Some o' -> forall d, In d (o_done o') -> d < j.
+Proof.
+  induction obs as [|o0 obs IH]; intros p ms i o x H Hn Hr; [destruct i; discriminate|].
+  cbn [mon_run] in H. destruct (mon_step p ms o0) as [ms'|] eqn:St; [|discriminate].
+  destruct (mon_step_inv _ _ _ _ St) as (Cons & Hc & Inv).
+  destruct i as [|i].
+  - injection Hn as ->. rewrite Hr in Inv. destruct Inv as (_ & _ & R & _).
+    exists (ms_c ms + N.of_nat (length (o_done o))). rewrite R. split; [left; reflexivity|]. split; [lia|].
+    intros i' o' Hle Hn' d Hd. destruct i' as [|i']; [|lia]. injection Hn' as <-.
+    apply (consecutive_lt _ _ _ Cons Hd).
+  - simpl in Hn. destruct (IH p ms' i o x H Hn Hr) as (j & Hin & Hle & Hall).
+    exists j. split; [|split].
+    + revert Hin. generalize (x, j). intros e He.
+      destruct (o_res o0).
+      * destruct Inv as (_ & _ & R & _). rewrite <- R. exact He.
+      * destruct Inv as (_ & _ & R & _). rewrite R. right; exact He.
+      * destruct Inv as (_ & _ & _ & R' & _). rewrite R' in He. destruct He.
+      * destruct Inv as (_ & _ & R). rewrite <- R. exact He.
+    + lia.
+    + intros i' o' Hle' Hn' d Hd. destruct i' as [|i'].
+      * injection Hn' as <-. pose proof (consecutive_lt _ _ _ Cons Hd). lia.
+      * simpl in Hn'. apply (Hall i' o'); auto. lia.
+Qed.
+
+Theorem monitor_sound_back_pressure : forall p obs i o x,
+  c13_monitor p obs = true -> nth_error obs i = Some o -> o_res o = RYielded x ->
+  exists j, In (x, j) (owners_from 0 (p_ops p)) /\
+    forall i' o', (i' <= i)%nat -> nth_error obs i' = Some o' -> forall d, In d (o_done o') -> d < j.
+Proof.
+  intros p obs i o x H Hn Hr.
+  destruct (mon_run_back_pressure obs p (mon_init p) i o x H Hn Hr) as (j & A & _ & B).
+  exists j. split; auto.
 Qed.
